@@ -9,9 +9,10 @@ mkdir -p "$D/.build" "$D/evidence" "$D/replay"
 cd "$D/harness"
 $GO build -o "$D/.build/vcheck" ./cmd/vcheck
 # reference self-tests (oracle sanity) and cache warm-up for every property binary
-$GO test -count=1 ./ref/... ./vh/...
-for p in props/c*/; do
-  id=$(basename "$p")
+$GO test -count=1 ./ref/kcrypto/ ./ref/pac/ ./vh/
+for ID in $(jq -r '.checks[].property_id' "$D/MANIFEST.json"); do
+  id=$(echo "$ID" | tr 'A-Z' 'a-z')
+  p="props/$id"
   case "$id" in c02|c11) RACE=-race;; *) RACE=;; esac
   $GO test -c -tags verif -vet=off $RACE -o "$D/.build/$id.test" "./$p" || exit 1
 done
